@@ -170,3 +170,44 @@ func SameMultiset(a, b []int) bool {
 	}
 	return true
 }
+
+// Wrap runs the "remembered answer across exactly N changes" family: an observer is asked, then a
+// run of changes whose LENGTH is N-1, N or N+1 (for every N in ns) is applied - neutral ones that
+// leave the observed answer alone and one flip that changes it, first or last in the run - and the
+// observer is asked again. It decides observers that remember an answer together with a change
+// counter narrower than the number of changes (a counter that wraps after 2^8 / 2^16 changes).
+// mk returns a fresh object as three closures; obs returns "" when the observer agrees with the model.
+func Wrap(ns []int, mk func() (obs func() string, neutral func(i int), flip func())) (cases int, fail string) {
+	for _, n := range ns {
+		for _, total := range []int{n - 1, n, n + 1} {
+			for _, first := range []bool{false, true} {
+				obs, neutral, flip := mk()
+				if m := obs(); m != "" {
+					return cases, fmt.Sprintf("before any change: %s", m)
+				}
+				if first {
+					flip()
+				}
+				for i := 0; i < total-1; i++ {
+					neutral(i)
+				}
+				if !first {
+					flip()
+				}
+				cases++
+				if m := obs(); m != "" {
+					return cases, fmt.Sprintf("observer asked, %d changes applied (the one that changes the answer %s), observer asked again: %s", total, map[bool]string{true: "first", false: "last"}[first], m)
+				}
+				// and once more after one further flip (an answer remembered by the second call)
+				flip()
+				if m := obs(); m != "" {
+					return cases, fmt.Sprintf("observer asked, %d changes, asked, 1 change, asked again: %s", total, m)
+				}
+			}
+		}
+	}
+	return cases, ""
+}
+
+// WrapLadder is the default ladder of change counts for Wrap.
+var WrapLadder = []int{2, 256, 65536, 131072, 1 << 20}
